@@ -88,6 +88,12 @@ CHECKS = {
    technique="deterministic simulation, twin runs: the same seeded scenario (world, configuration, query packets at the same fake instants) executed once through the owned UDP transport (wire path, inline + replay) and once through Server.ServeMsg (decoded path); per-operation comparison of the decoded replies",
    text="Seeded search over configurations (NSID, cookie secret, blocklist, client rate limit, prefetch, RFC 8198) and packet sequences over a signed hierarchy (answers, aliases, wildcards, NXDOMAIN and names below it, NODATA, empty zones, blocked names, unreachable zones, CHAOS; header bits; EDNS version/size/DO; cookies of 8/24/2 bytes, NSID, keepalive, padding, client subnet, unknown options), with repeats so that later packets are served from what earlier ones cached. Reply i of the wire run must decode to the same message as reply i of the decoded run, including 'no reply'. Sampling, not proof.",
    note="Letter case of names inside RDATA is normalised like owner case (the wire path compresses them against the client's mixed-case question; a consequence of name compression). Zones are signed with Ed25519 so that both runs carry identical signatures. Packets rejected on the header alone and hosts-file state are not generated. The wire run uses a worker pool large enough never to queue."),
+
+ "C06": dict(
+   level="exploration", design="§3 C06",
+   technique="deterministic simulation: generated query packets (header bits, EDNS shapes, mangled headers) through the real UDP engine (batch and portable readers, inline and replay) and through Server.ServeMsg over UDP-like and TCP-like transports; every reply judged against its own query by the property's rules",
+   text="Seeded search over configurations and packet sequences (the C05 generator) plus per-packet mangling (QR set, non-query opcode, QDCOUNT 0/2, ANCOUNT 2, truncated body/header). Rules checked per reply: QR/ID/opcode echo, question echo (exact bytes), no OPT without OPT, no RRSIG/NSEC/NSEC3 without DO (unless RRSIG asked), AD only when negotiated, no reflected client subnet / keepalive over UDP / foreign options, cookie only against a cookie, UDP size limit or minimal TC reply, never answer a response, NOTIMP/FORMERR/BADVERS rejections. Sampling, not proof.",
+   note="Stream listeners (TCP/TLS) and DoH/DoQ are not simulated: header-level rejection is checked on the datagram listener only and 'ID 0 over DoQ' is not checked. Types NSEC/NSEC3 are not asked explicitly. One COOKIE option per query."),
 }
 
 NOT_APPLICABLE = {
